@@ -6,19 +6,19 @@ import connfam as cf
 
 SPECS = ['Client.tla', 'ClientTrace.tla']
 INVS = ['ListFromTargets', 'ListNoDup', 'CursorInRange', 'RRDistinct', 'LatBounded', 'NoWaitAfterClose', 'WaiterOwed', 'WaitersAreWaiting', 'ErrKinds']
-PROPS = ['RouteInTargets', 'RandomInList', 'LeastTimeMinimal', 'ProbeOncePerTick', 'ClosedFailsAtOnce', 'DetectReleases', 'ProbeReleases', 'ProbeDropsDead']
+PROPS = ['RouteInTargets', 'RandomInList', 'LeastTimeMinimal', 'ProbeOncePerTick', 'ClosedFailsAtOnce', 'DetectReleases', 'ProbeReleases', 'ProbeDropsDead', 'CtxHarmless']
 LIVE = ['WaitersReleased', 'CloseReleases']
-TRACE_INVS = ['RouteOK', 'PolicyOK', 'WaitersOK', 'ListFromTargets', 'ListNoDup', 'CursorInRange', 'RRDistinct', 'NoWaitAfterClose', 'WaiterOwed', 'WaitersAreWaiting']
+TRACE_INVS = ['RouteOK', 'PolicyOK', 'WaitersOK', 'CancelOK', 'ListFromTargets', 'ListNoDup', 'CursorInRange', 'RRDistinct', 'NoWaitAfterClose', 'WaiterOwed', 'WaitersAreWaiting']
 OWN = {'ListFromTargets': 'C16', 'ListNoDup': 'C16', 'CursorInRange': 'C16', 'RouteInTargets': 'C16', 'RouteOK': 'C16',
        'RRDistinct': 'C17', 'RandomInList': 'C17', 'LeastTimeMinimal': 'C17', 'ProbeOncePerTick': 'C17', 'LatBounded': 'C17', 'PolicyOK': 'C17',
        'NoWaitAfterClose': 'C18', 'WaiterOwed': 'C18', 'WaitersAreWaiting': 'C18', 'ErrKinds': 'C18', 'ClosedFailsAtOnce': 'C18', 'WaitersOK': 'C18',
-       'WaitersReleased': 'C18', 'DetectReleases': 'C18', 'ProbeDropsDead': 'C18', 'ProbeReleases': 'C18', 'CloseReleases': 'C18'}
+       'WaitersReleased': 'C18', 'DetectReleases': 'C18', 'ProbeDropsDead': 'C18', 'ProbeReleases': 'C18', 'CloseReleases': 'C18', 'CtxHarmless': 'C19', 'CancelOK': 'C19'}
 
 def consts(addrs=('a', 'b'), callers=(1, 2), policy='rr', upd=(('a', 'b'), ('b',)), init=('a', 'b'), maxupd=1, flips=1, calls=3, fb=1,
-           lats=(10,), maxlat=100, director=0, dev=()):
+           lats=(10,), maxlat=100, director=0, dev=(), ctxcalls=False):
     return {'Addrs': set(addrs), 'Callers': set(callers), 'Policy': policy, 'UpdateSets': 'raw:{' + ', '.join(tla(set(u)) for u in upd) + '}',
             'InitTargets': set(init), 'MaxDirector': director, 'MaxUpdates': maxupd, 'MaxFlips': flips, 'MaxCalls': calls, 'MaxFallbacks': fb,
-            'Lats': set(lats), 'MaxLat': maxlat, 'Dev': set(dev), 'DevForced': False}
+            'Lats': set(lats), 'MaxLat': maxlat, 'Dev': set(dev), 'DevForced': False, 'CtxCalls': bool(ctxcalls)}
 
 def model_check(tag, c, timeout=900, live=False):
     wd = scratch('cmc_' + tag)
@@ -40,7 +40,7 @@ def to_steps(acts):
             steps.append({'a': 'ProbeDone', 'addr': argval(args[0]), 'g': argval(args[1])})
         elif name.startswith('Route'):
             steps.append({'a': 'Route', 'k': argval(args[0])})
-        elif name in ('WokenPick', 'Timeout', 'CallDone', 'Again'):
+        elif name in ('WokenPick', 'Timeout', 'CallDone', 'Again', 'CtxEnd'):
             steps.append({'a': name, 'k': argval(args[0])})
         elif name in ('Close', 'FallbackBegin', 'FallbackEnd', 'TickElapsed'):
             steps.append({'a': name})
@@ -95,7 +95,7 @@ def replay(schedules, tag):
 
 def trace_cfg(cfg, callers):
     c = consts(addrs=cfg['Addrs'], callers=callers, policy=cfg['Policy'], upd=((),), init=(), maxupd=100000, flips=100000, calls=10000000,
-               fb=100000, lats=(1,), maxlat=6000000, director=100000)
+               fb=100000, lats=(1,), maxlat=6000000, director=100000, ctxcalls=True)
     return cfg_text('TrSpec', c, TRACE_INVS, [], 'CONSTRAINT TrHigh\nPOSTCONDITION TrAccepted')
 
 def validate(tracefile, cfg, tag, names, max_findings=5):
